@@ -176,9 +176,13 @@ class Dump:
                 t = self.block(cases[-1].body); cases = cases[:-1]
             for c in reversed(cases):
                 p = c.pattern
-                if c.guard is not None or not (isinstance(p, ast.MatchValue) and isinstance(p.value, ast.Constant)
-                                                and isinstance(p.value.value, int) and not isinstance(p.value.value, bool)):
-                    return self.sunsup('match pattern')
+                if c.guard is not None:
+                    self.features.add('match guard'); return self.sunsup('match guard')
+                if isinstance(p, ast.MatchAs):
+                    return self.sunsup('match capture pattern' if p.pattern is None else 'match as-pattern')
+                if not (isinstance(p, ast.MatchValue) and isinstance(p.value, ast.Constant)
+                        and isinstance(p.value.value, int) and not isinstance(p.value.value, bool)):
+                    return self.sunsup('match pattern ' + type(p).__name__)
                 t = '(PSCase %s %s %s %s)' % (subj, cq_z(p.value.value), self.block(c.body), t)
             return t
         return self.sunsup(type(s).__name__)
